@@ -2,7 +2,7 @@ import EpModel.Driver.Util
 import EpModel.Driver.EncLink
 import EpModel.Driver.EncNet
 import EpModel.Model.Io
--- import EpModel.Model.IoBuild
+import EpModel.Model.IoBuild
 /- `io.*` operations (C16): fault injection on writers, readers, output slices and the
    LimitedReader (same line formats as harness/src/io.rs).
 
@@ -225,6 +225,73 @@ def limited : List String → Option String
       else pure s!"[{",".intercalate outs}];pulled={l.inner.pos}"
   | _ => none
 
+/-! ### PacketBuilder paths -/
+
+open EpModel.Io.Build in
+/-- `<path> <args…>` → the packet description (`none`: unknown path, `some none`: a checked
+    constructor rejects a value) -/
+def mkPacket (path : String) (a : List String) (payload : Bytes) : Option (Option Packet) :=
+  let hexN := EncLink.argHexN
+  let u8 := EncLink.argU8
+  let u16 := EncLink.argU16
+  let u32 := EncLink.argU32
+  match path, a with
+  | "e4u", [s, d, isrc, idst, ttl, sp, dp] => do
+    pure (some { link := .eth2 (← hexN 6 s) (← hexN 6 d), vlan := .none,
+                 net := .v4 (← hexN 4 isrc) (← hexN 4 idst) (← u8 ttl), tp := .udp (← u16 sp) (← u16 dp),
+                 payload := payload })
+  | "ev6u", [s, d, vid, isrc, idst, hop, sp, dp] => do
+    let vid ← u16 vid
+    let pk : Packet := { link := .eth2 (← hexN 6 s) (← hexN 6 d), vlan := (.single vid),
+                            net := .v6 (← hexN 16 isrc) (← hexN 16 idst) (← u8 hop), tp := .udp (← u16 sp) (← u16 dp),
+                            payload := payload }
+    pure (if vid > 4095 then none else some pk)
+  | "4t", [isrc, idst, ttl, sp, dp, seq, win] => do
+    pure (some { link := .none, vlan := .none, net := .v4 (← hexN 4 isrc) (← hexN 4 idst) (← u8 ttl),
+                 tp := .tcp (← u16 sp) (← u16 dp) (← u32 seq) (← u16 win), payload := payload })
+  | "edd4i", [s, d, outer, inner, isrc, idst, ttl, eid, eseq] => do
+    let o ← u16 outer; let i ← u16 inner
+    let pk : Packet := { link := .eth2 (← hexN 6 s) (← hexN 6 d), vlan := (.double o i),
+                            net := .v4 (← hexN 4 isrc) (← hexN 4 idst) (← u8 ttl),
+                            tp := .icmp4echo (← u16 eid) (← u16 eseq), payload := payload }
+    pure (if o > 4095 ∨ i > 4095 then none else some pk)
+  | "6i6", [isrc, idst, hop, eid, eseq] => do
+    pure (some { link := .none, vlan := .none, net := .v6 (← hexN 16 isrc) (← hexN 16 idst) (← u8 hop),
+                 tp := .icmp6echo (← u16 eid) (← u16 eseq), payload := payload })
+  | "e4i6", [s, d, isrc, idst, ttl, eid, eseq] => do
+    pure (some { link := .eth2 (← hexN 6 s) (← hexN 6 d), vlan := .none,
+                 net := .v4 (← hexN 4 isrc) (← hexN 4 idst) (← u8 ttl),
+                 tp := .icmp6echo (← u16 eid) (← u16 eseq), payload := payload })
+  | "earp", s :: d :: rest => do
+    if ¬ payload.isEmpty then none
+    else
+      let src ← hexN 6 s; let dst ← hexN 6 d
+      match ← mkArp rest with
+      | none => pure none
+      | some arp => pure (some { link := .eth2 src dst, vlan := .none, net := (.arp arp), tp := .none,
+                                 payload := payload })
+  | _, _ => none
+
+def buildOp (slice : Bool) (args : List String) : Option String := do
+  let (a, n) ← splitLast args
+  let n ← argNat n
+  let (a, payload) ← splitLast a
+  let payload ← argHex payload
+  match a with
+  | [] => none
+  | path :: a =>
+    match ← mkPacket path a payload with
+    | none => pure "bad-value"
+    | some pk =>
+      if slice then
+        let (buf, r) := Build.writeToSlice pk (List.replicate n fill)
+        let rs := match r with
+          | .ok m => s!"ok(n={m})"
+          | .error (.space m) => s!"err(space({m}))"
+          | .error (.content c) => c
+        pure s!"{rs};buf={hx buf};canary=intact"
+      else pure (writeLine (Build.ser pk) id n)
+
 /-! ### dispatch -/
 
 open Codec CodecNet in
@@ -326,8 +393,8 @@ def run (op : String) (args : List String) : Option String :=
       if rs = "panic" then pure "panic" else pure s!"{rs};used={r.pos};post=0"
     | _ => none
   | "io.limited" => limited args
-  -- | "io.build.write" => Build.write args
-  -- | "io.build.wslice" => Build.wslice args
+  | "io.build.write" => buildOp false args
+  | "io.build.wslice" => buildOp true args
   | _ => none
 
 end EpModel.Driver.Io
